@@ -235,6 +235,13 @@ func loadCrtList(rt *Runtime, path string) {
 			continue
 		}
 		rt.Certs[f[0]] = certDigest(f[0])
+		// [ca-file <file> verify ... crl-file <file>]: loaded with the crt-list, replaced by a reload only
+		for i := 1; i+1 < len(f); i++ {
+			if k := strings.TrimPrefix(f[i], "["); k == "ca-file" || k == "crl-file" {
+				file := strings.TrimSuffix(f[i+1], "]")
+				rt.Certs[k+":"+file] = digestFile(realPath(file))
+			}
+		}
 	}
 }
 
